@@ -44,6 +44,7 @@ def run(ctx, cfg, fnpath, uninterpreted=None, inline=(), **kw):
     ip = X.Interp(cr, uninterpreted=un, **kw)
     if opaque:
         ip.opaque = set(opaque)
+    ip.inline_closures = tuple(k for k in inline if '{closure' in k)
     ip.hyps = hyps
     if exact:
         ip.exact_casts = set(exact)
